@@ -212,7 +212,7 @@ impl Prop for C12 {
          reference servers in the fault injector. The query runs on a helper thread and must deliver Err of the matching class (PacketReceive; SocketConnect when refused; Ok when \
          nothing is withheld) within attempts x steps x timeout + 2.5 s slack; still blocked at the deadline = violation. (a') the other blocking steps: connecting to a listener whose accept queue is full (Java, legacy, Eco/HTTP: bounded by the \
          connect timeout, SocketConnect), writing 64 MiB to a peer that never reads (raw TCP socket: bounded by the write timeout, PacketSend), Eco/HTTP (ureq) against a server that \
-         accepts and stays silent / sends headers and the start of the body then stalls / refuses (any error value within the bound), each x IPv4/IPv6 x 2 timeouts x 3 shapes. (a+) every entry point that accepts timeout settings (all protocol functions, the five Minecraft variants and their chains, the per-game functions with timeouts, and the generic dispatch for every table game) against a peer that takes datagrams and connections on one port and never answers: PacketReceive / AutoQuery within the same bound, with the same timeout shapes. (a'') Eco/HTTP against an answering server at 127.0.0.1 and ::1: the query succeeds and the peer sees exactly one GET /frontpage carrying its own address as Host. (b) raw socket fidelity through the re-exported socket \
+         accepts and stays silent / sends headers and the start of the body then stalls / refuses (any error value within the bound), each x IPv4/IPv6 x 2 timeouts x 3 shapes. (a+) every entry point that accepts timeout settings (all protocol functions, the five Minecraft variants and their chains, the per-game functions with timeouts, and the generic dispatch for every table game) against a peer that takes datagrams and connections on one port and never answers: PacketReceive / AutoQuery within the same bound, with the same timeout shapes, and the peer must have received at least one and at most attempts x (blocking steps) datagrams / connections. (a'') Eco/HTTP against an answering server at 127.0.0.1 and ::1: the query succeeds and the peer sees exactly one GET /frontpage carrying its own address as Host. (b) raw socket fidelity through the re-exported socket \
          implementations: payloads of 0, 1, 1023, 1024, 1025, 1472, 6144, 65507 and random sizes each way with requested receive sizes around the payload size: the server must see \
          exactly the bytes sent and the client must get exactly the first min(size, len) bytes (TCP: everything until the close). non-trivial = a fault after at least one successful \
          reply, IPv6, or a payload above 1024 bytes; distinct = digest of the case"
@@ -378,6 +378,39 @@ impl Prop for C12 {
                             let v6_unreachable = *v6 && matches!(e.kind, GDErrorKind::PacketSend | GDErrorKind::SocketBind);
                             let sig = if v6_unreachable { "C12|UdpSocket|IPv6 peer not reachable|PacketSend".to_string() } else { format!("C12|{name}|silent peer|wrong outcome|{:?}", e.kind) };
                             o.fail(sig, detail(json!({"took_ms": took.as_millis()})));
+                        } else {
+                            // "the number of attempts times the timeout": the peer must have been asked exactly attempts x (blocking steps) times.
+                            // Datagrams and connections are counted after the query has returned.
+                            let _ = peer._udp.set_nonblocking(true);
+                            let _ = peer._tcp.set_nonblocking(true);
+                            let mut buf = [0u8; 2048];
+                            let mut datagrams = 0u32;
+                            while peer._udp.recv_from(&mut buf).is_ok() {
+                                datagrams += 1;
+                            }
+                            let mut connections = 0u32;
+                            while peer._tcp.accept().is_ok() {
+                                connections += 1;
+                            }
+                            let fam = entry.family();
+                            // (UDP steps, TCP steps) of one attempt against a peer that never answers
+                            let steps: Option<(u32, u32)> = match fam {
+                                crate::entries::Family::McAuto => Some((1, 4)),
+                                crate::entries::Family::McJava | crate::entries::Family::McLegacy(_) => Some((0, 1)),
+                                crate::entries::Family::McLegacyAuto => Some((0, 3)),
+                                crate::entries::Family::Http | crate::entries::Family::Master => None,
+                                _ => Some((1, 0)),
+                            };
+                            if let Some((u, t)) = steps {
+                                // (a TCP variant may re-send on the connection it has)
+                                // (an entry point may also retry less: Savage 2 does not retry at all. The property bounds the wait from above.)
+                                if datagrams > u * attempts || connections > t * attempts || datagrams + connections == 0 {
+                                    o.fail(
+                                        format!("C12|{name}|silent peer|asked {} often than attempts x steps", if datagrams > u * attempts || connections > t * attempts { "more" } else { "less" }),
+                                        detail(json!({"datagrams": datagrams, "connections": connections, "expected_datagrams": u * attempts, "expected_connections": t * attempts, "took_ms": took.as_millis()})),
+                                    );
+                                }
+                            }
                         }
                     }
                 }
